@@ -197,6 +197,12 @@ def c20(ctx, rep):
     counts = {}
     nb = rules_total.check_sites(rep, dbg, 'dbg', vetted, counts)
     nb2 = rules_total.check_sites(rep, rel, 'rel', vetted, counts)
+    rep.rule('TINV', 'type invariant used by the SITE discharge: the delta-min vector of arrival::curve::Curve is never empty -- every construction '
+                     'provides a non-empty literal or asserts non-emptiness (TINV-EST), and afterwards the vector is only ever extended by push in the '
+                     'extrapolation routines (CACHE-APPEND)')
+    ti = rules_total.check_type_invariants(rep, dbg, 'dbg') + rules_total.check_type_invariants(rep, rel, 'rel')
+    rules_models.check_append_only(rep, dbg, 'min_distance', 'src/arrival/curve.rs', {'extrapolate', 'extrapolate_steps', 'extrapolate_with_bound'})
+    rep.floor('constructions checked for the type invariant', ti, 2)    # at least Curve::new in both configurations (other constructors may delegate to it)
     l1, c1 = rules_total.check_term(rep, dbg, 'dbg')
     l2, c2 = rules_total.check_term(rep, rel, 'rel')
     np_, nd = rules_total.check_profile(rep, dbg, rel)
